@@ -146,6 +146,9 @@ def directed(ctx):
     yield {"i": -2, "kind": "video", "cap": 2, "batch": 4, "regime": "producer-slow", "start": 2, "end": 9, "n": 12, "fault": ["exc", 5], "via_from_filename": False, "sched_seed": 2}
     yield {"i": -3, "kind": "labels", "cap": 1, "batch": 2, "regime": "balanced", "start": 0, "end": 10, "n": 10, "fault": ["rank", 0], "via_from_filename": False, "sched_seed": 3}
     yield {"i": -4, "kind": "video", "cap": 8, "batch": 5, "regime": "free", "start": 4, "end": 4, "n": 12, "fault": None, "via_from_filename": True, "sched_seed": 4}
+    # the consumer's first batch takes 6.5 s while the reader sits on a full one-slot buffer: nothing may be dropped, however long a put has to wait
+    yield {"i": -5, "kind": "video", "cap": 1, "batch": 2, "regime": "free", "start": None, "end": None, "n": 12, "fault": None, "via_from_filename": False, "sched_seed": 5, "stall": 6.5}
+    yield {"i": -6, "kind": "labels", "cap": 2, "batch": 1, "regime": "free", "start": 0, "end": 9, "n": 9, "fault": None, "via_from_filename": False, "sched_seed": 6, "stall": 6.5}
 
 
 def cases(ctx):
@@ -175,7 +178,14 @@ def build(case):
         EchoPredictor = attrs.define(type("EchoPredictor", (Predictor,), ns))
         _STATE["Echo"] = EchoPredictor
 
+    stall = {"left": float(case.get("stall") or 0.0)}
+
     def echo(ex):
+        if stall["left"]:  # a slow first batch (model set-up): the reader fills the queue and waits on a full buffer for several seconds
+            import time as _t
+
+            _t.sleep(stall["left"])
+            stall["left"] = 0.0
         return [{"frame_idx": ex["frame_idx"].clone(), "video_idx": ex["video_idx"].clone(), "orig_size": ex["orig_size"].clone(),
                  "code": (ex["image"].flatten(1).amax(1) * 255).round().to(torch.int32)}]
 
@@ -271,7 +281,7 @@ def run_history(ctx, case):
                     break
             else:
                 streak = 0
-            if time.time() - t0 > 10:
+            if time.time() - t0 > 10 + float(case.get("stall") or 0.0):
                 verdict["watchdog"] = True
                 q.put({"image": None, "frame_idx": None, "video_idx": None, "orig_size": None})
                 consumer.join(5)
